@@ -129,6 +129,15 @@ prop('C17', 'model_checking',
      'relational check', TOOL_NOTE + '; non-self-contained IdP output that the SP cannot read back is a C08 matter (drift note)',
      'TLA+ scenario spec + TLC + replay (IdP build and SP parse)', 'section 5 C17')
 
+prop('C09', 'model_checking',
+     'IdPAnswer.tla models pick_binding / response_args over the requester\'s metadata (bindings tried in order, consumer URL '
+     'matched exactly, index ignored) and the contract (a result is always a registered (binding, location) pair of the '
+     'requester, a supplied URL is honoured exactly or refused, unknown requesters are refused, requests naming a registered '
+     'endpoint are answered); TLC checks it on all 2 172 scenarios, all are replayed through Server.parse_authn_request / '
+     'parse_logout_request and Server.response_args with template-written metadata',
+     'unsigned requests over HTTP-Redirect; four metadata layouts, two SPs', 'TLA+ scenario spec + TLC + exhaustive replay',
+     'section 5 C09')
+
 
 def main():
     props = [json.loads(l) for l in open(os.path.join(VERIF, 'properties.jsonl'))]
